@@ -48,7 +48,7 @@ Link(c) ==
         ELSE IF c.rel = "affine" THEN
              (IF \A j \in 1..n : ToString(o.out[j]) = c.line[j] THEN <<"ACCEPT", "", "">> ELSE <<"REJECT", "KeepsLinear", o.variant>>)
         \* too few valid cells: both come back unchanged (each echoes its own placeholder), lambda 0
-        ELSE IF c.rel = "placeholder" /\ NValid(b.y, b.nd, ModeOf(b.variant)) < NeedOf(b.variant) THEN
+        ELSE IF c.rel \in {"placeholder", "shift"} /\ NValid(b.y, b.nd, ModeOf(b.variant)) < NeedOf(b.variant) THEN
              (IF PassThroughOK(b.out, b.y) /\ PassThroughOK(o.out, o.y) /\ samel THEN <<"ACCEPT", "", "passthrough">>
               ELSE <<"REJECT", "PassThrough", b.variant>>)
         ELSE IF oo = b.out /\ samel THEN <<"ACCEPT", "", "">>
